@@ -32,6 +32,10 @@ class OutOfInput(Undefined):
     garbage) is not what a counter does that stays inside"""
 
 
+class NoEnd(Undefined):
+    """the run makes far more moves than any counter needs for an input of at most six points: it does not return"""
+
+
 class _Garbage:
     """the content of a cell that was never written (np.empty; calloc's zero is not modelled): it spreads through arithmetic, lands in the
     table as it is, and a decision that depends on it is not determined by the input"""
@@ -272,7 +276,7 @@ class Prog:
                 raise Undefined(f"no transition of {node} applies")
             if node in (Y.END, Y.RAISE, Y.FAIL):
                 return t, env, mem, bad
-        raise Undefined("the run does not end")
+        raise NoEnd(f"no result after {limit} moves")
 
 
 def prog(ts):
@@ -317,6 +321,8 @@ def observe(ts, peaks):
         t, env, mem, bad = prog(ts).run(peaks, check=True, bad=bad)
     except OutOfInput as e:
         return dict(res=("gives up", f"reads outside an array: {e}"), bad=bad + [("bounds", f"read {e}")])
+    except NoEnd as e:
+        return dict(res=("gives up", f"does not return: {e}"), bad=bad + [("exit", f"the counter does not return: {e}")])
     except Undefined as e:
         return dict(res=("undefined", str(e)), bad=bad + [("undefined", str(e))])
     L = len(peaks)
